@@ -1,6 +1,7 @@
 // C01 - OSC 1.0 wire format: every constructor produces the spec encoding, every accessor reads it back.
 // Exhaustive enumeration of a small-scope input family; oracle = refosc.h (written from the spec).
 #include <cstdarg>
+#include <algorithm>
 #include <rtosc/rtosc.h>
 #include <rtosc/arg-val.h>
 #include "common.h"
@@ -75,6 +76,14 @@ static void check_decode(const std::string &types, const std::vector<ref::Arg> &
     std::string tags; for(char t : types) if(t != '[' && t != ']') tags += t;
     std::vector<const ref::Arg *> per_tag; { size_t k = 0; for(char t : tags) per_tag.push_back(ref::has_data(t) ? &args[k++] : nullptr); }
 
+    // before anything else is asked about this message: its arguments by index in DESCENDING order (the buffer held another message a moment
+    // ago, read in ascending order - nothing of that may linger), then one in the middle again
+    for(size_t k = tags.size(); k-- > 0;) {
+        vp::transition();
+        rtosc_arg_t v = rtosc_argument(msg, (unsigned)k);
+        std::string why;
+        if(rtosc_type(msg, (unsigned)k) == tags[k] && !same_value(per_tag[k] ? *per_tag[k] : ref::Arg(), tags[k], v, msg, len, why)) { vp::violation("argument-by-index|descending-order|" + sh, cid, "index " + std::to_string(k) + " read first/in descending order: " + why); break; }
+    }
     vp::transition(4);
     if(types != rtosc_argument_string(msg))
         vp::violation("argument-string|" + sh, cid, std::string("got '") + rtosc_argument_string(msg) + "'");
@@ -250,6 +259,11 @@ int main(int argc, char **argv)
             types.push_back(t);
             std::string w = t; w[0] = '['; w[L / 2] = ']'; w[L / 2 + 1] = '['; w[L - 1] = ']'; types.push_back(w);
         }
+    }
+    {
+        // several array groups in one message: every well-nested string of length 6..8 over {i [ ]} (adjacent delimiters "][", "]][", "[[" ...)
+        std::vector<std::string> br; gen::type_strings("i[]", 6, 8, br);
+        for(auto &t : br) if(t.find('i') != std::string::npos && std::find(types.begin(), types.end(), t) == types.end()) types.push_back(t);
     }
     if(T) {
         // all well-nested strings of length 4 and 5 over all 17 symbols
